@@ -833,7 +833,17 @@ class Forest:
         self.events.append("|".join(str(x) for x in a))
 
     # -- the peers ---------------------------------------------------------------------------
-    async def peer_exec(self, peer, self_obj, a, title):
+    def peer_exec_sync(self, peer, self_obj, a, title):
+        "An executor that is an ordinary function: answers (or raises) at once."
+        coro = self.peer_exec(peer, self_obj, a, title, nosleep=True)
+        try:
+            coro.send(None)
+        except StopIteration as stop:
+            return stop.value
+        coro.close()
+        raise RuntimeError("synchronous executor wanted to wait")
+
+    async def peer_exec(self, peer, self_obj, a, title, nosleep=False):
         from func_adl import find_EventDataset
 
         if getattr(self, "stack_window", None) is not None:
@@ -900,9 +910,10 @@ class Forest:
                 self.ev("caller_interrupt", peer, title)
                 vloop.interrupt_waiting_caller(); gate.acquire()  # noqa: E702
         try:
-            if plan[0] == "stall":
+            if plan[0] == "stall" and not nosleep:
                 await asyncio.get_running_loop().create_future()
-            await asyncio.sleep(plan[1])
+            if not nosleep:
+                await asyncio.sleep(plan[1])
             if plan[0] == "error":
                 raise call["err"]
             v = {"token": Token(title), "none": None, "zero": 0, "emptylist": []}[plan[2]]
@@ -932,6 +943,12 @@ class Forest:
                 return await eng.peer_exec(tag, None, a, title)
 
             return functools.partial(ov3, "OV2")
+        if k == 5:  # an ordinary function (the interface allows synchronous executors)
+
+            def ov6(a, title=None):
+                return eng.peer_exec_sync("OV5", None, a, title)
+
+            return ov6
         if k == 4:  # a (*args) signature, e.g. behind a retry decorator
 
             async def ov5(*args, **kwargs):
@@ -985,7 +1002,7 @@ class Forest:
             ds = cls(i, t, d.get("extra"))
             self.datasets[i] = ds
             self.add_stream(ds, i, None, "root", twin=ds)
-        self.overrides = [self.make_override(i) for i in range(5)]
+        self.overrides = [self.make_override(i) for i in range(6)]
         # shared AST objects (the same ast.Lambda instance may be handed to many calls)
         self.shared = [self.parse_lambda(src) for _, src in self.cfg["pool"]]
         real_dir = None
@@ -1623,10 +1640,18 @@ class Forest:
                for c2 in self.calls):
             self.stat("probe_same_stream_executed_concurrently")
 
+    @staticmethod
+    def override_no(call):
+        k = call["no"] % 6
+        # the synchronous form cannot stall, and a planned interrupt needs a worker that waits
+        if k == 5 and (call["plan"][0] == "stall" or call.get("interrupt")):
+            k = 0
+        return k
+
     def kwargs_for(self, call):
         kw = {}
         if call["override"]:
-            kw["executor"] = self.overrides[call["no"] % 5]
+            kw["executor"] = self.overrides[self.override_no(call)]
         if call["title"] is not None:
             kw["title"] = call["title"]
         return kw
@@ -1848,7 +1873,7 @@ class Forest:
                                               "exc": repr(res[1])[:200]})
             if st:
                 h = st[0]
-                exp_peer = f"OV{call['no'] % 5}" if call["override"] else m.root
+                exp_peer = f"OV{self.override_no(call)}" if call["override"] else m.root
                 if h["peer"] != exp_peer or not h["self_ok"]:
                     raise Violation("C12/route", {"call": call["no"], "expected": exp_peer,
                                                   "got": h["peer"], "self_ok": h["self_ok"]})
